@@ -17,8 +17,7 @@ static u32 ghost_len;
 u32 __CPROVER_uninterpreted_cmpf(u32, u32, u32, u64, u64, u64, u64, u64, u64, u64, u64);
 static void uf_step(u32 *h, u32 n, const u8 *block)
 {
-  u64 b[8];
-  for (int i = 0; i < 8; i++) { u64 x = 0; for (int j = 0; j < 8; j++) x |= (u64)block[8 * i + j] << (8 * j); b[i] = x; }
+  const u64 *b = (const u64 *)block;           /* unaligned word reads of the 64 block bytes */
   u32 s0 = h[0], s1 = h[1];
   for (u32 k = 0; k < n; k++) h[k] = __CPROVER_uninterpreted_cmpf(k, s0, s1, b[0], b[1], b[2], b[3], b[4], b[5], b[6], b[7]);
 }
